@@ -62,7 +62,17 @@ def name_universe(max_len: int) -> List[str]:
         for v in (e, "_" + e, "__" + e, e + "_", e.upper(), e.capitalize(), "".join(p.capitalize() for p in e.split("_")), e + "1", "x_" + e):
             if NAME_RE.match(v):
                 out.append(v)
-    return list(dict.fromkeys(out))
+    # beyond the length bound of the enumeration: names as long as real schemas carry them - long runs of capitals, of digits, of underscores, many words,
+    # one enormous word (the laws are the same for every length)
+    words = ["customer", "Account", "ID", "URL", "v2", "HTTP", "legacy", "X", "identification", "NUMBER"]
+    rng = random.Random(18)
+    for n in (33, 34, 40, 64, 65, 100, 129, 257):
+        out += ["A" * n, "a" * n, "aB" * (n // 2), "A" * n + "b", "x" + "A" * n, "a" + "1" * n, "a" + "_" * n + "b", "A" * n + "Legacy" + "B" * n, "_" + "A" * n]
+    for k in (6, 12, 25, 60):
+        for style in range(4):
+            ws = [rng.choice(words) for _ in range(k)]
+            out.append(["".join(w.capitalize() for w in ws), "_".join(ws), ws[0].lower() + "".join(w.upper() for w in ws[1:]), "".join(ws)][style])
+    return list(dict.fromkeys(x for x in out if NAME_RE.match(x)))
 
 
 def install_contracts(record: Dict[str, Any]):
